@@ -207,6 +207,15 @@ theorem C13_map_noblock (E : Env α δ) (f : List (PyVal α) → List (String ×
     mapFuncOverBlocks E f args kwargs = (f args kwargs).map PyVal.one := by
   simp [mapFuncOverBlocks, numBlocks_noblk h]
 
+/-- degenerate case of the code's test `num_blocks == 0`: when the first block argument is an *empty*
+    block array nothing is mapped either — the function receives the block arrays themselves -/
+theorem C13_map_empty_first (E : Env α δ) (f : List (PyVal α) → List (String × PyVal α) → Res α)
+    (args : List (PyVal α)) (kwargs : List (String × PyVal α))
+    (hfirst : FirstBlk (args ++ kwargs.map Prod.snd) []) :
+    mapFuncOverBlocks E f args kwargs = (f args kwargs).map PyVal.one := by
+  have hn := numBlocks_first hfirst
+  simp [mapFuncOverBlocks, hn]
+
 /-- a block argument whose number of blocks differs from the first one's is rejected -/
 theorem C13_map_mismatch (E : Env α δ) (f : List (PyVal α) → List (String × PyVal α) → Res α)
     (args : List (PyVal α)) (kwargs : List (String × PyVal α)) (l0 l1 : List α)
